@@ -82,6 +82,7 @@ type CaseB struct {
 	B     []string   `json:"b,omitempty"`     // keys defined in data/b.yml
 	Pages [][]string `json:"pages"`           // keys defined in the front-matter of p0, p1, p2
 	NoCfg bool       `json:"nocfg,omitempty"` // the filesystem has no theme.yml and no data/ directory
+	Ext   string     `json:"ext,omitempty"`   // names of the two data files, see dataNames (A = the earlier name, B = the later one)
 	Pool  [][]string `json:"pool,omitempty"`  // keys of each shared caller map (values M<j><key>)
 	Ops   []Op       `json:"ops"`
 }
@@ -168,8 +169,9 @@ func (c CaseB) files() map[string]string {
 	}
 	if !c.NoCfg {
 		f["theme.yml"] = th.String()
-		f["data/a.yml"] = a.String() + "onlya: x\n"
-		f["data/b.yml"] = bb.String() + "onlyb: x\n"
+		daName, dbName, _ := dataNames(c.Ext)
+		f[daName] = a.String() + "onlya: x\n"
+		f[dbName] = bb.String() + "onlyb: x\n"
 	}
 	body := c.body()
 	for i := 0; i < nPages; i++ {
@@ -377,6 +379,9 @@ func checkB(c CaseB) error {
 	if len(c.Ops) > 64 {
 		return fmt.Errorf("malformed case: too many ops")
 	}
+	if _, _, err := dataNames(c.Ext); err != nil {
+		return err
+	}
 	body := c.body()
 	fsys := memfs.FromMap(c.files())
 	m := &modelB{cfg: map[string]string{}}
@@ -389,7 +394,7 @@ func checkB(c CaseB) error {
 			m.cfg[k] = "A" + k
 		}
 		if inList(c.B, k) {
-			m.cfg[k] = "B" + k // data/ files load in alphabetical order, later files override
+			m.cfg[k] = "B" + k // data/ files load in alphabetical order of their names, later files override
 		}
 	}
 	// the shared caller maps and their pristine copies
@@ -591,8 +596,9 @@ func genB(rec *ev.Rec) func(*rapid.T) CaseB {
 func genHistory(t *rapid.T, rec *ev.Rec, avoidFM bool) CaseB {
 	c := CaseB{A: genSubset(t, "a-"), B: genSubset(t, "b-")}
 	c.NoCfg = rapid.Bool().Draw(t, "nocfg")
+	c.Ext = rapid.SampledFrom(append([]string{""}, exts...)).Draw(t, "data-file-names")
 	if c.NoCfg {
-		c.A, c.B = nil, nil
+		c.A, c.B, c.Ext = nil, nil, ""
 	}
 	plain := rapid.Bool().Draw(t, "plain-pages") // no page has front-matter
 	for i := 0; i < nPages; i++ {
@@ -752,6 +758,16 @@ func classifyB(c CaseB) (bool, []string) {
 		cls["no-config-files"] = true
 	} else {
 		cls["with-config-files"] = true
+		if c.Ext != "" {
+			cls["data-files="+c.Ext] = true
+		} else {
+			cls["data-files=yml+yml"] = true
+		}
+		for _, k := range c.A {
+			if inList(c.B, k) && (c.Ext == "yaml+yml" || c.Ext == "yml+yaml" || c.Ext == "samestem") {
+				cls["both-data-files-define-a-key,extensions-differ"] = true
+			}
+		}
 	}
 	plain := true
 	for _, p := range c.Pages {
